@@ -289,3 +289,88 @@ def rule_eval_flow(ctx, rules):
 def machine_none_in(res):
     """Ok(None)"""
     return isinstance(res, Enum) and res.fields and isinstance(res.fields[0], Enum) and machine.is_opt(res.fields[0]) and res.fields[0].variant == 0
+
+
+# ------------------------------------------------------------------------------------------------ Interpreter::eval_file
+
+
+def eval_file_table(fb):
+    """eval_file(path): the program directory is recorded before evaluation, the text evaluated is what file_char_stream yields for
+    that path, an unreadable file is an error and nothing is evaluated, the result is eval's"""
+    ITP = "interpreter::interpreter::Interpreter::"
+    f = fb.find(ITP + "eval_file")
+    fields = [x["name"] for x in fb.adt("interpreter::interpreter::Interpreter")["variants"][0]["fields"]]
+    rows = []
+    for scenario in ("ok", "open-fails", "evaluation-fails"):
+        PATH, DIR, STREAM, IOERR, E, V = T("path"), T("directory-of-path"), T("chars-of-file"), T("io-error"), T("evaluation-error"), T("value")
+        selfv = [UNKNOWN for _ in fields]
+        pd = fields.index("program_directory") if "program_directory" in fields else None
+        if pd is not None:
+            selfv[pd] = none()
+        ev = []
+
+        def icpt(mc, c, a, tt, g, scenario=scenario, ev=ev, selfv=selfv):
+            end = c.rsplit("::", 1)[-1]
+            a0 = absint.deref(a[0]) if a else None
+            if c.endswith("io::file_char_stream"):
+                ev.append(("open", a0 is PATH))
+                return err(IOERR) if scenario == "open-fails" else ok(STREAM)
+            if c == ITP + "eval":
+                cur = absint.deref(selfv[pd]) if pd is not None else None
+                ev.append(("eval", absint.deref(a[1]) is STREAM if len(a) > 1 else None, cur))
+                return err(E) if scenario == "evaluation-fails" else ok(some(V))
+            if ("path::Path" in c or "PathBuf" in c) and a0 is PATH:
+                if end == "parent":
+                    return some(DIR)
+                if end in ("as_path", "as_ref", "deref", "borrow", "to_path_buf", "to_owned", "clone", "into", "from", "new"):
+                    return PATH
+            if a0 is DIR and end in ("to_owned", "to_path_buf", "clone", "into", "from", "as_ref", "deref", "borrow"):
+                return DIR
+            if end in ("into", "from", "deref", "as_ref", "borrow", "as_path", "to_path_buf", "to_owned", "clone") and a0 is PATH:
+                return PATH
+            return NOT
+        mc = Machine(fb, intercept=icpt, max_visits=6, budget=400)
+        try:
+            res = mc.run(f, [selfv, PATH])
+        except (absint.Stuck, absint.Loop) as e:
+            rows.append((scenario, {"stuck": str(e)}))
+            continue
+        rows.append((scenario, {"result": res, "events": ev, "DIR": DIR, "IOERR": IOERR, "E": E, "V": V}))
+    return f, rows
+
+
+def rule_eval_file(ctx, rule):
+    fb = ctx.fb()
+    from .ctx import where_of
+    f, rows = eval_file_table(fb)
+    decided = 0
+    for scenario, d in rows:
+        key = "eval_file/%s" % scenario
+        if "stuck" in d:
+            ctx.undecided(rule, key, "cannot follow Interpreter::eval_file (%s)" % d["stuck"], where_of(f))
+            continue
+        decided += 1
+        res, ev = d["result"], d["events"]
+        opens = [e for e in ev if e[0] == "open"]
+        evals = [e for e in ev if e[0] == "eval"]
+        name = getattr(res, "name", None) if isinstance(res, Enum) else None
+
+        def has_dir(x):
+            return _has(x, d["DIR"])
+        if scenario == "open-fails":
+            good = name == "Err" and _has(res, d["IOERR"]) and not evals and len(opens) == 1 and opens[0][1]
+            msg = "when the file cannot be read eval_file yields %r after %s; expected the read error (a diagnostic and a non-zero status), " \
+                  "nothing evaluated" % (res, ev)
+        else:
+            ok_eval = len(evals) == 1 and evals[0][1] is True and has_dir(evals[0][2]) and len(opens) == 1 and opens[0][1]
+            if scenario == "ok":
+                good = ok_eval and name == "Ok" and _has(res, d["V"])
+            else:
+                good = ok_eval and name == "Err" and _has(res, d["E"])
+            msg = "eval_file (%s) yields %r after %s; expected: the program's directory recorded, then exactly one evaluation of the text " \
+                  "file_char_stream gives for the path, whose result is the result" % (scenario, res, [(e[0],) + tuple(e[1:2]) for e in ev])
+        ctx.inst(rule, key, {"ok": bool(good)})
+        ctx.oblige(bool(good))
+        if not good:
+            ctx.report(rule, key, msg, where_of(f))
+    return decided
